@@ -20,7 +20,10 @@ fn arg(args: &[String], name: &str) -> Option<String> {
 
 fn main() {
     // panics inside the implementation are caught per op; keep them quiet
-    std::panic::set_hook(Box::new(|_| {}));
+    // (VERIF_LOUD_PANICS=1 shows them: a panic of the harness itself, outside catch_unwind, ends the process with rc 101)
+    if std::env::var("VERIF_LOUD_PANICS").is_err() {
+        std::panic::set_hook(Box::new(|_| {}));
+    }
     // error texts must not carry backtraces (the sandbox exports RUST_BACKTRACE=1)
     std::env::set_var("RUST_BACKTRACE", "0");
     let args: Vec<String> = std::env::args().collect();
